@@ -10,7 +10,7 @@ namespace Ndn.Lvs
 def optOKb {π : Type} : Opt π → Bool
   | .lit v => !v.isEmpty
   | .pat _ => true
-  | .fn f _ => f != ""
+  | .fn f _ => f != "" && decide (FnNameOK f)
 
 def ruleOKb {τ π : Type} (r : Rule τ π) : Bool :=
   r.name.all (fun c => match c with | .lit v => !v.isEmpty | _ => true) &&
@@ -20,7 +20,7 @@ theorem optOK_of_optOKb {π : Type} {o : Opt π} (h : optOKb o = true) : OptOK o
   cases o with
   | lit v => simp [optOKb] at h; exact h
   | pat p => trivial
-  | fn f a => simp [optOKb] at h; exact h
+  | fn f a => simpa [optOKb, OptOK] using h
 
 theorem ruleOK_of_ruleOKb {τ π : Type} {r : Rule τ π} (h : ruleOKb r = true) : RuleOK r := by
   unfold ruleOKb at h
